@@ -387,6 +387,7 @@ def placements(root, n):
             out.append(('in-repeated-parent', {'GS_LOOP': {'interchanges': 2}, 'ST_LOOP': {'groups': 2}}[n.id]))
             out.append(('twice-in-repeated-parent', {'GS_LOOP': {'interchanges': 2, 'groups': 2}, 'ST_LOOP': {'groups': 2, 'sets': 2}}[n.id]))
         out.append(('everything', {'all': True}))
+        out.append(('everything-swapped', {'all': True, 'swap_samepos': True}))
         out.append(('everything-twice', {'all': True, 'interchanges': 2, 'groups': 2, 'sets': 2}))
         return out
     out.append(('minimal', {}))
@@ -413,6 +414,8 @@ def placements(root, n):
     if len(same) > 1:
         out.append(('all-loops-of-this-id', {'include': sorted(same)}))
     out.append(('everything', {'all': True}))
+    # same-position siblings may legally arrive in any order: the same document with every such run reversed
+    out.append(('everything-swapped', {'all': True, 'swap_samepos': True}))
     return out
 
 
@@ -445,7 +448,7 @@ def jsonable(plan):
 
 QUICK_PLANS = [('min', {}), ('all-filled', {'all': True, 'fill_all': True}), ('all', {'all': True}), ('two-sets', {'sets': 2}),
                ('two-groups', {'groups': 2}), ('two-interchanges', {'interchanges': 2}), ('lastcode', {'code': 'last'}),
-               ('all-twice', {'all': True, 'sets': 2, 'groups': 2})]
+               ('all-twice', {'all': True, 'sets': 2, 'groups': 2}), ('all-swapped', {'all': True, 'swap_samepos': True})]
 
 
 def work_docs(shard):
